@@ -360,6 +360,37 @@ theorem ods_text (annot : Option (List Ev)) (paras : List Para) (covered : Bool)
     simp only [List.append_assoc]
     rw [runOds_annot c _ _ _ (ha c rfl), hbody, List.cons_append, List.nil_append, hend]
 
+/-- `office:string-value` is the value of the cell wherever it stands among the attributes — before or after
+    `office:value-type`, with any other attributes around — as long as no other value attribute precedes it;
+    the element content (display text) is then irrelevant. -/
+theorem ods_string_value_attr (pre post : List (String × Txt)) (v : Txt) (evs : List Ev)
+    (hpre : ∀ kv ∈ pre, kv.1 ≠ "office:value" ∧ kv.1 ≠ "office:string-value" ∧ kv.1 ≠ "office:date-value" ∧
+      kv.1 ≠ "office:time-value" ∧ kv.1 ≠ "office:boolean-value") :
+    odsCellValue (pre ++ ("office:string-value", v) :: post) evs = .ok (some v) := by
+  have hpost : ∀ (l : List (String × Txt)) (b : Bool) (x : OdsAttrVal), odsAttrLoop l b (some x) = (b, some x) := by
+    intro l
+    induction l with
+    | nil => intro b x; rfl
+    | cons kv l ih => intro b x; obtain ⟨k, w⟩ := kv; simp [odsAttrLoop, ih]
+  have hloop : ∀ (pre : List (String × Txt)) (b : Bool),
+      (∀ kv ∈ pre, kv.1 ≠ "office:value" ∧ kv.1 ≠ "office:string-value" ∧ kv.1 ≠ "office:date-value" ∧
+        kv.1 ≠ "office:time-value" ∧ kv.1 ≠ "office:boolean-value") →
+      ∃ b', odsAttrLoop (pre ++ ("office:string-value", v) :: post) b none = (b', some (.strAttr v)) := by
+    intro pre
+    induction pre with
+    | nil => intro b _; exact ⟨b, by simp [odsAttrLoop, hpost]⟩
+    | cons kv l ih =>
+      intro b h
+      obtain ⟨k, w⟩ := kv
+      have hk := h (k, w) (List.mem_cons_self ..)
+      have hl := fun x hx => h x (List.mem_cons_of_mem _ hx)
+      simp only [List.cons_append, odsAttrLoop, hk.1, hk.2.1, hk.2.2.1, hk.2.2.2.1, hk.2.2.2.2, if_false, or_self]
+      by_cases ht : k = "office:value-type"
+      · simp only [ht, if_true]; exact ih _ hl
+      · simp only [ht, if_false]; exact ih _ hl
+  obtain ⟨b', hb⟩ := hloop pre false hpre
+  simp [odsCellValue, odsAttrs, hb]
+
 /-! ## xlsb: wide strings -/
 
 /-- `wide_str` returns exactly the stored UTF-16 code units and the number of bytes they occupy, whatever
